@@ -223,6 +223,11 @@ class OsProxy:
         return self._real.makedirs(p, *a, **k)
 
     def replace(self, src, dst, **k):
+        for q in (src, dst):
+            f = self._fs.fail.get(self._real.path.abspath(q))
+            if f and f[0] == "w":
+                self._fs.counters["err@replace/" + _errno.errorcode.get(f[1], str(f[1]))] += 1
+                raise OSError(f[1], self._real.strerror(f[1]), q)
         self._fs._mut("replace", dst, self._fs.rel(src))
         return self._real.replace(src, dst, **k)
 
